@@ -29,6 +29,9 @@ def analyse(prop: str, tier: str, root=None):
     mod = importlib.import_module(f'rules.{prop.lower()}')
     repo = Repo(root)
     ctx = Ctx(prop, repo, tier)
+    for line in repo.norm_log:
+        print('NORMALISED', line)
+        ctx.notes.append('normalised view: ' + line)
     mod.run(ctx)
     return ctx, mod
 
